@@ -1,0 +1,157 @@
+//! Hooks for external verification tooling. Only compiled with the
+//! `verif-hooks` feature. Nothing here changes solver behaviour: the wrappers
+//! call the crate-private functions unchanged, and the trace sink only records
+//! values the solver has already computed.
+#![allow(missing_docs)]
+
+use std::cell::RefCell;
+
+use crate::{
+    Constraint, Id, Warning, constraints::ConstraintEntry, constraints::JacobianVar,
+    solver::Layout,
+};
+
+fn layout_for(num_variables: usize) -> Layout {
+    Layout {
+        total_num_residuals: 0,
+        num_variables,
+    }
+}
+
+/// `Constraint::nonzeroes`, one vector per row.
+pub fn nonzeroes(c: &Constraint) -> [Vec<Id>; 3] {
+    let (mut r0, mut r1, mut r2) = (Vec::new(), Vec::new(), Vec::new());
+    c.nonzeroes(&mut r0, &mut r1, &mut r2);
+    [r0, r1, r2]
+}
+
+/// `Constraint::residual_dim`.
+pub fn residual_dim(c: &Constraint) -> usize {
+    c.residual_dim()
+}
+
+/// `Constraint::residual` at the given assignments: three residual slots and the degenerate flag.
+pub fn residual(c: &Constraint, current_assignments: &[f64]) -> ([f64; 3], bool) {
+    let layout = layout_for(current_assignments.len());
+    let (mut r0, mut r1, mut r2) = (0.0, 0.0, 0.0);
+    let mut degenerate = false;
+    c.residual(
+        &layout,
+        current_assignments,
+        &mut r0,
+        &mut r1,
+        &mut r2,
+        &mut degenerate,
+    );
+    ([r0, r1, r2], degenerate)
+}
+
+/// `Constraint::jacobian_rows` at the given assignments: `(id, partial derivative)` per row, and the degenerate flag.
+pub fn jacobian_rows(c: &Constraint, current_assignments: &[f64]) -> ([Vec<(Id, f64)>; 3], bool) {
+    let layout = layout_for(current_assignments.len());
+    let (mut r0, mut r1, mut r2): (Vec<JacobianVar>, Vec<JacobianVar>, Vec<JacobianVar>) =
+        (Vec::new(), Vec::new(), Vec::new());
+    let mut degenerate = false;
+    c.jacobian_rows(
+        &layout,
+        current_assignments,
+        &mut r0,
+        &mut r1,
+        &mut r2,
+        &mut degenerate,
+    );
+    let conv = |r: Vec<JacobianVar>| {
+        r.into_iter()
+            .map(|jv| (jv.id, jv.partial_derivative))
+            .collect::<Vec<_>>()
+    };
+    ([conv(r0), conv(r1), conv(r2)], degenerate)
+}
+
+/// `warnings::lint` over `(constraint, priority, id)` triples.
+pub fn lint(entries: &[(Constraint, u32, usize)]) -> Vec<Warning> {
+    let entries: Vec<ConstraintEntry<'_>> = entries
+        .iter()
+        .map(|(c, priority, id)| ConstraintEntry {
+            constraint: c,
+            priority: *priority,
+            id: *id,
+        })
+        .collect();
+    crate::warnings::lint(&entries)
+}
+
+/// The crate-private `is_satisfied`.
+pub fn is_satisfied(residual_dim: usize, residuals: [f64; 3]) -> bool {
+    crate::is_satisfied(residual_dim, residuals)
+}
+
+/// The crate-private satisfaction / degeneracy threshold.
+pub fn epsilon() -> f64 {
+    crate::EPSILON
+}
+
+/// One recorded event of a solve.
+#[derive(Debug, Clone)]
+pub enum TraceEvent {
+    /// `solve_inner` was entered with this subset (caller positions and priorities).
+    SolveInnerStart {
+        entry_ids: Vec<usize>,
+        priorities: Vec<u32>,
+    },
+    /// Start of a Newton round: values, global residual and Jacobian triplets `(row, col, value)`.
+    Iter {
+        iteration: usize,
+        x: Vec<f64>,
+        r: Vec<f64>,
+        jac: Vec<(usize, usize, f64)>,
+    },
+    /// The residual test passed at this round.
+    Converged { iteration: usize },
+    /// The step computed in this round and the numbers of the step-size test.
+    Step {
+        iteration: usize,
+        d: Vec<f64>,
+        current_inf_norm: f64,
+        step_inf_norm: f64,
+        step_threshold: f64,
+    },
+    /// The step-size test passed at this round.
+    StepStop { iteration: usize },
+    /// The Newton loop returned an error (out of iterations or a faer error).
+    NewtonErr { what: String },
+    /// Singular values and right singular vectors (row-major, `v[j][k]`) handed to the freedom analysis.
+    Dof {
+        nvars: usize,
+        sigma: Vec<f64>,
+        v: Vec<Vec<f64>>,
+    },
+    /// `solve_inner` returned.
+    SolveInnerEnd { ok: bool },
+}
+
+thread_local! {
+    static TRACE: RefCell<Option<Vec<TraceEvent>>> = const { RefCell::new(None) };
+}
+
+/// Start recording on this thread (discarding anything recorded so far).
+pub fn trace_start() {
+    TRACE.with(|t| *t.borrow_mut() = Some(Vec::new()));
+}
+
+/// Stop recording and return what was recorded.
+pub fn trace_take() -> Vec<TraceEvent> {
+    TRACE.with(|t| t.borrow_mut().take().unwrap_or_default())
+}
+
+pub(crate) fn trace_enabled() -> bool {
+    TRACE.with(|t| t.borrow().is_some())
+}
+
+pub(crate) fn trace_push(ev: TraceEvent) {
+    TRACE.with(|t| {
+        if let Some(v) = t.borrow_mut().as_mut() {
+            v.push(ev);
+        }
+    });
+}
